@@ -141,6 +141,10 @@ structure Src where
   sawRegex : Bool := false
   sawInterp : Bool := false
   sawHtmlComment : Bool := false
+  /-- a backslash outside every literal and comment: the text is not JavaScript (apart from `\uXXXX` in identifiers) -/
+  sawStrayBackslash : Bool := false
+  /-- a line break inside a '…' or "…" literal: an unterminated string literal, not JavaScript either -/
+  sawBrokenString : Bool := false
 deriving Repr
 
 /-- `/` starts a regular-expression literal where an expression cannot have just ended (the usual lexer rule, by the
@@ -173,6 +177,7 @@ def step2 (st : Src) (s : Bytes) : Src × Nat :=
      | 0 :: rest => { st with interp := rest, mode := .str .backtick }      -- end of the substitution: back in the template
      | (d + 1) :: rest => { st with interp := d :: rest, prev := some 125 }
      | [] => { st with prev := some 125 }, 1)
+  | .code, 92 :: _ => ({ st with prev := some 92, sawStrayBackslash := true }, 1)
   | .code, b :: _ => (if isSpaceByte b then st else { st with prev := some b }, 1)
   | .lineComment, b :: _ => if b == 10 || b == 13 then ({ st with mode := .code }, 1) else (st, 1)
   | .blockComment, 42 :: 47 :: _ => ({ st with mode := .code }, 2)
@@ -187,7 +192,7 @@ def step2 (st : Src) (s : Bytes) : Src × Nat :=
   | .str .backtick, 36 :: 123 :: _ => ({ st with mode := .code, interp := 0 :: st.interp, prev := none, sawInterp := true }, 2)
   | .str q, b :: _ =>
     if b == q.byte then ({ st with mode := .code, prev := some 41 }, 1)
-    else if q != .backtick && (b == 10 || b == 13) then ({ st with mode := .code }, 1)
+    else if q != .backtick && (b == 10 || b == 13) then ({ st with mode := .code, sawBrokenString := true }, 1)
     else (st, 1)
 
 /-- Walk a script in which the bytes `{{ v }}` mark Go expressions (zero-width for JavaScript); returns, for
@@ -196,7 +201,9 @@ def markerFlagsAux (marker : Bytes) : Nat → Src → Bytes → List Bool × Src
   | 0, st, _ => ([], st)
   | _, st, [] => ([], st)
   | fuel + 1, st, s@(_ :: _) =>
-    if List.isPrefixOf marker s then
+    -- inside a comment `{{ v }}` is comment text, not a Go expression (templ's script parser passes comments through)
+    let inComment := match st.mode with | .lineComment => true | .blockComment => true | _ => false
+    if List.isPrefixOf marker s && !inComment then
       -- a value stands where the marker is: afterwards an expression has just ended
       let st' := match st.mode with | .code => { st with prev := some 41 } | _ => st
       let (fs, fin) := markerFlagsAux marker fuel st' (s.drop marker.length)
@@ -211,7 +218,8 @@ def markerFlags (marker script : Bytes) : List Bool := (markerFlagsAux marker (s
 def scriptFeatures (marker script : Bytes) : List String :=
   let fin := (markerFlagsAux marker (script.length + 1) {} script).2
   (if fin.sawRegex then ["regex"] else []) ++ (if fin.sawInterp then ["interpolation"] else []) ++
-    (if fin.sawHtmlComment then ["html-comment"] else [])
+    (if fin.sawHtmlComment then ["html-comment"] else []) ++ (if fin.sawStrayBackslash then ["stray-backslash"] else []) ++
+    (if fin.sawBrokenString then ["broken-string"] else [])
 
 /-- HTML side of a script element's text: it must not contain `</script` (any case) followed by a tag-name
     delimiter, nor `<!--`. A sufficient check used by the theorems: no `<` at all. -/
